@@ -43,14 +43,14 @@ CliSorted ==
 Bnd(kind, o) == IF o = None THEN NoBound ELSE <<kind, o[1]>>
 CliRange ==
     /\ IsEvent("CliRange")
-    /\ IsContent(E.items)
+    /\ TRUE = IsContent(E.items)
     /\ E.exit = 0
     /\ TRUE = (E.out = RangeSeq(E.items, Bnd("ge", E.s), Bnd("le", E.e), None))
 
 CliUnion ==
     /\ IsEvent("CliUnion")
     /\ E.exit = 0
-    /\ IsContent(E.out)
+    /\ TRUE = IsContent(E.out)
     /\ SeqSet(Keys(E.out)) = UNION { SeqSet(Keys(E.ins[j])) : j \in 1..Len(E.ins) }
 
 CliVerify ==
